@@ -41,6 +41,9 @@ type WPage struct {
 	// deflate level (0 = default).
 	SnappyLiteral bool
 	GzipLevel     int
+	// Aux is carried along for the caller (e.g. the levels and values the
+	// body was built from).
+	Aux interface{}
 }
 
 // V2Header holds DataPageHeaderV2's own fields.
@@ -231,7 +234,7 @@ func WriteFile(root *Node, rgs []WRowGroup, opt WOptions) ([]byte, error) {
 			ch := &rg.Chunks[ci]
 			start := int64(len(out))
 			var nv, uncompTotal, compTotal int64
-			var dataOff, dictOff int64 = -1, -1
+			var dataOff, dictOff, idxOff int64 = -1, -1, -1
 			encSeen := map[int32]bool{}
 			type encStat struct{ pt, enc int32 }
 			encStats := map[encStat]int32{}
@@ -256,6 +259,10 @@ func WriteFile(root *Node, rgs []WRowGroup, opt WOptions) ([]byte, error) {
 					}
 					encSeen[p.DictEnc] = true
 					encStats[encStat{p.Type, p.DictEnc}]++
+				case PIndex:
+					if idxOff < 0 {
+						idxOff = off
+					}
 				case PData, PDataV2:
 					if dataOff < 0 {
 						dataOff = off
@@ -297,6 +304,9 @@ func WriteFile(root *Node, rgs []WRowGroup, opt WOptions) ([]byte, error) {
 				md = append(md, thriftc.F(8, thriftc.List(thriftc.KStruct, thriftc.Struct(thriftc.F(1, thriftc.Str("writer.note")), thriftc.F(2, thriftc.Str("reference"))))))
 			}
 			md = append(md, i64f(9, dataOff))
+			if idxOff >= 0 {
+				md = append(md, i64f(10, idxOff))
+			}
 			if dictOff >= 0 || ch.SetDictOffset {
 				if dictOff < 0 {
 					dictOff = 0
